@@ -26,9 +26,16 @@ ASSUMES = [
     "doWrite is called only by the reactor, for descriptors in its writer set; a value returned by doWrite makes the "
     "reactor remove the descriptor from both sets and call connectionLost (posixbase._disconnectSelectable)",
     "producer callbacks are finite scripts of write/writeSequence/unregisterProducer/loseConnection/loseWriteConnection calls",
-    "'written while connected' = accepted while connected and before the write side was shut (_closeWriteConnection); "
-    "a loseConnection after a completed half-close closes at once, nothing can be pending then, and a pull producer that "
-    "registered after the half-close is simply stopped",
+    "'written while connected' = accepted while connected and before the write side was shut (_closeWriteConnection): "
+    "once the write side is shut nothing is pending and nothing is accepted ever again (half_closed_nothing_pending, "
+    "half_closed_is_final)",
+    "'not closed while a non-streaming producer is registered' is proved for every producer registered before the write "
+    "side was shut (such a producer keeps doWrite from half-closing and from closing); a non-streaming producer found "
+    "registered at a clean close is proved to have been registered on an already half-closed transport, so every write "
+    "it ever made was dropped - loseConnection on a half-closed transport closes at once and stops it",
+    "eventual delivery: the schedule is a run of consecutive writability events (no other operation interleaved) in each "
+    "of which writeSomeData takes >= 1 byte of a non-empty offer; bytes written by a producer from the resumeProducing "
+    "call made at the drain point start a new round (the theorem applies again to the state reached)",
 ]
 TRUSTED = [
     "the fake reactor (two sets) and the scripted writeSomeData stand for the reactor and the kernel",
@@ -39,13 +46,25 @@ MANIFEST = {
             "every operation history, every OS acceptance pattern and every finite producer behaviour (re-entrant, any "
             "nesting depth): bytes handed to the OS ++ bytes still buffered = bytes accepted by write/writeSequence while "
             "connected (exactly once, in order); the OS is always offered exactly the next pending bytes; pending data keeps "
-            "the descriptor in the writer set and a writability event offers a non-empty buffer (no stuck data); a close "
-            "happens only with nothing pending and no pull producer registered; a registered push producer is paused whenever "
-            "more than bufferSize bytes are pending and is never left paused with a drained buffer. Model tied to abstract.py "
-            "by differential runs, event by event.",
+            "the descriptor in the writer set and a writability event offers a non-empty buffer (no stuck data); eventual "
+            "delivery (eventual_delivery): from any reachable open state with n > 0 bytes pending and 0 < SEND_LIMIT, under any "
+            "schedule of OS answers taking >= 1 byte of a non-empty offer, after some j <= n writability events every byte "
+            "accepted has been handed to the OS exactly once in order (sent = accepted), no callback ran and the connection "
+            "stayed open before that, and then doWrite resumes the producer that must be resumed, else closes cleanly iff "
+            "loseConnection had been requested, else carries out a requested half-close (end-to-end form without producer: "
+            "eventual_delivery_no_producer; idle transport: eventual_close_when_idle; after loseConnection with no producer "
+            "registered the descriptor is in the writer set and the connection is closed cleanly within max(1, n) such events: "
+            "writer_registered_when_closing, eventual_close); write/writeSequence on an open transport "
+            "append exactly their bytes to the accepted stream also when producer callbacks run and re-enter "
+            "(write_accepted_with_callbacks); a clean close happens only with nothing pending and with a pull producer "
+            "registered only if that producer was registered after the write side had been shut, i.e. never had a byte "
+            "accepted (close_only_after_flush, no exception left; half_closed_is_final, half_close_waits_for_producer); a "
+            "registered push producer is paused whenever more than bufferSize bytes are pending and is never left paused "
+            "with a drained buffer. Model tied to abstract.py by differential runs, event by event.",
     "note": "trusts Lean kernel, the hand-written model (differentially tied), the fake reactor and scripted kernel",
-    "technique": "Lean 4 proof (state invariants preserved by every operation, higher-order in the producer callbacks, "
-                 "induction over nesting depth and history) + differential tie",
+    "technique": "Lean 4 proof (state invariants and monotone relations preserved by every operation, higher-order in the "
+                 "producer callbacks, induction over nesting depth and history; eventual delivery by induction on the "
+                 "pending byte count) + differential tie",
     "design_ref": "DESIGN.md §7 C14",
 }
 
@@ -171,7 +190,7 @@ class _Run:
         self.is_lost = False
         self.abnormal = False       # lost for a reason other than a clean close
         self.lose_requested = False
-        self.reg = None             # [pid, streaming, lastcall]
+        self.reg = None             # [pid, streaming, lastcall, registered after the write side was shut]
         self.bad = None
         self.flags = set()
 
@@ -202,6 +221,8 @@ class _Run:
         self.evs.append("H")
         if self.sent != len(self.acc):
             self.violation("half-closed-before-flush", f"write side shut with {len(self.acc) - self.sent} bytes pending")
+        if self.reg and not self.reg[1]:
+            self.violation("half-closed-with-pull-producer", "write side shut while a non-streaming producer is registered")
         self.open = False
         self.half = True
 
@@ -214,8 +235,9 @@ class _Run:
                 self.violation("closed-before-flush", f"connection closed with {pending} written bytes not handed to the OS")
             if not self.lose_requested:
                 self.violation("closed-without-loseConnection", "doWrite closed the connection although loseConnection was never called")
-            if self.reg and not self.reg[1] and not self.half:
-                self.violation("closed-with-pull-producer", "connection closed while a non-streaming producer is registered")
+            if self.reg and not self.reg[1] and not self.reg[3]:
+                self.violation("closed-with-pull-producer", "connection closed while a non-streaming producer is registered "
+                               "(one registered before the write side was shut)")
         else:
             self.abnormal = True
         self.open = False
@@ -269,7 +291,7 @@ class _Run:
             pid, st = int(pid), st == "1"
             was = self.reg
             if was is None and not self.is_lost:
-                self.reg = [pid, st, None]
+                self.reg = [pid, st, None, self.half]
             try:
                 fd.registerProducer(self._producer(pid), st)
             except RuntimeError:
@@ -321,13 +343,18 @@ class _Run:
             self.quiescent_checks(tok)
             out.append((",".join(self.evs) if self.evs else "-") + "/" + self.state())
         line = " ".join(out)
-        # oracle only: a fair reactor and a kernel that takes everything must now deliver the rest
-        for _ in range(64):
+        # oracle only: a fair reactor and a kernel that takes everything must now deliver the rest; what was accepted
+        # up to now must have been handed over after at most max(1, pending) writability events
+        target, budget = len(self.acc), max(1, len(self.acc) - self.sent)
+        for i in range(64):
             if self.fd not in self.reactor.writers or self.is_lost:
                 break
             self.evs = []
             self.top("dA")
             self.quiescent_checks("dA (drain)")
+            if i + 1 == budget and self.sent < target and not self.abnormal:
+                self.violation("delivery-too-slow", f"{target - self.sent} bytes still pending after {budget} writability "
+                               f"events that each took everything offered ({budget} bytes were pending)")
         pending = len(self.acc) - self.sent
         if pending and not self.abnormal:
             self.violation("not-delivered", f"{pending} of {len(self.acc)} written bytes never reached the OS although every later write was accepted in full")
